@@ -529,6 +529,18 @@ def Modifier.flag : Modifier → Nat
   | .toupper => Extracted.burlToUpper | .encb64u => Extracted.burlEncodeB64u
   | .decb64u => Extracted.burlDecodeB64u
 
+/-- the recoding keyvalue.c selects for the modifier: the flag *extracted from the C function* -/
+def Modifier.kvFlag : Modifier → Nat
+  | .esc => Extracted.kvMod_esc | .escape => Extracted.kvMod_escape | .escnde => Extracted.kvMod_escnde
+  | .escpsnde => Extracted.kvMod_escpsnde | .noesc => Extracted.kvMod_noesc
+  | .noescape => Extracted.kvMod_noescape | .tolower => Extracted.kvMod_tolower
+  | .toupper => Extracted.kvMod_toupper | .encb64u => Extracted.kvMod_encb64u
+  | .decb64u => Extracted.kvMod_decb64u
+
+/-- keyvalue.c's modifier -> recoding map is the documented one (and captures default to escpsnde) -/
+def ModifierMapAsDocumented : Prop :=
+  (∀ m : Modifier, m.kvFlag = m.flag) ∧ Extracted.kvMod_default = Extracted.burlEncodePsnde
+
 /-- the documented modifiers as (name, flag) pairs -/
 def documentedModifiers : List (Bytes × Nat) :=
   [Modifier.esc, .escape, .escnde, .escpsnde, .noesc, .noescape, .tolower, .toupper, .encb64u, .decb64u].map
@@ -619,9 +631,10 @@ theorem capAppend_eq (env : Env) (c : UInt8) (n fl : Nat) :
     | none => simp [burlAppend_nil]
     | some cd => simp
 
-/-- every documented modifier selects the recoding it is named after -/
+/-- pcre_keyvalue_buffer_subst_ext() recognises every documented modifier name and ORs in the flag
+    keyvalue.c associates with it -/
 theorem extGo_modifier (m : Modifier) (env : Env) (sigil : UInt8) (out p : Bytes) (pos fl : Nat) :
-    extGo env sigil out (m.name ++ p) 0 pos fl = extGo env sigil out p 0 (pos + m.name.length) (fl ||| m.flag) := by
+    extGo env sigil out (m.name ++ p) 0 pos fl = extGo env sigil out p 0 (pos + m.name.length) (fl ||| m.kvFlag) := by
   have e1 : ofString "esc:" = [101, 115, 99, 58] := by decide
   have e2 : ofString "escape:" = [101, 115, 99, 97, 112, 101, 58] := by decide
   have e3 : ofString "escnde:" = [101, 115, 99, 110, 100, 101, 58] := by decide
@@ -632,21 +645,15 @@ theorem extGo_modifier (m : Modifier) (env : Env) (sigil : UInt8) (out p : Bytes
   have e8 : ofString "toupper:" = [116, 111, 117, 112, 112, 101, 114, 58] := by decide
   have e9 : ofString "encb64u:" = [101, 110, 99, 98, 54, 52, 117, 58] := by decide
   have e10 : ofString "decb64u:" = [100, 101, 99, 98, 54, 52, 117, 58] := by decide
-  cases m <;> simp only [Modifier.name, Modifier.flag, e1, e2, e3, e4, e5, e6, e7, e8, e9, e10] <;>
+  cases m <;> simp only [Modifier.name, Modifier.kvFlag, e1, e2, e3, e4, e5, e6, e7, e8, e9, e10] <;>
     simp [extGo, startsWith, sEsc, sApe, sNde, sPsnde, sNo, sEscC, sEscapeC, sTo, sLowerC, sUpperC,
-          sUrlDot, sQsa, sEncB64, sDecB64, ofString, isDigit, rbrace, colon,
-          Extracted.kvMod_esc, Extracted.kvMod_escape, Extracted.kvMod_escnde, Extracted.kvMod_escpsnde,
-          Extracted.kvMod_noesc, Extracted.kvMod_noescape, Extracted.kvMod_tolower, Extracted.kvMod_toupper,
-          Extracted.kvMod_encb64u, Extracted.kvMod_decb64u,
-          Extracted.burlEncodeAll, Extracted.burlEncodeNde, Extracted.burlEncodePsnde,
-          Extracted.burlEncodeNone, Extracted.burlToLower, Extracted.burlToUpper,
-          Extracted.burlEncodeB64u, Extracted.burlDecodeB64u]
+          sUrlDot, sQsa, sEncB64, sDecB64, ofString, isDigit, rbrace, colon]
 
 theorem extGo_modifiers (env : Env) (sigil : UInt8) (out p : Bytes) :
     ∀ (mods : List Modifier) (pos fl : Nat),
       extGo env sigil out (mods.flatMap Modifier.name ++ p) 0 pos fl =
         extGo env sigil out p 0 (pos + (mods.flatMap Modifier.name).length)
-          (mods.foldl (fun f m => f ||| m.flag) fl) := by
+          (mods.foldl (fun f m => f ||| m.kvFlag) fl) := by
   intro mods
   induction mods with
   | nil => intro pos fl; simp
@@ -658,7 +665,8 @@ theorem extGo_modifiers (env : Env) (sigil : UInt8) (out p : Bytes) :
     omega
 
 /-- the item that ends a placeholder, after any modifiers (`fl` = flags selected so far) -/
-theorem extGo_item (env : Env) (c : UInt8) (out t : Bytes) (pos fl : Nat) (item : Item) (hw : item.WF) :
+theorem extGo_item (hdef : Extracted.kvMod_default = Extracted.burlEncodePsnde)
+    (env : Env) (c : UInt8) (out t : Bytes) (pos fl : Nat) (item : Item) (hw : item.WF) :
     extGo env c out (item.render ++ rbrace :: t) 0 pos fl =
       some (item.apply env c fl out, pos + item.render.length + 1) := by
   have e1 : ofString "url.scheme" = [117, 114, 108, 46, 115, 99, 104, 101, 109, 101] := by decide
@@ -671,13 +679,11 @@ theorem extGo_item (env : Env) (c : UInt8) (out t : Bytes) (pos fl : Nat) (item 
   | cap d =>
     simp only [Item.WF] at hw
     simp only [Item.render, List.cons_append, List.nil_append, extGo, hw, if_true]
-    simp [extNumber, isDigit, rbrace, idxOf?, capAppend_eq, Item.apply, Extracted.kvMod_default,
-          Extracted.burlEncodePsnde]
+    simp [extNumber, isDigit, rbrace, idxOf?, capAppend_eq, Item.apply, hdef]
   | cap2 d1 d2 =>
     simp only [Item.WF] at hw
     simp only [Item.render, List.cons_append, List.nil_append, extGo, hw.1, if_true]
-    simp [extNumber, hw.2, rbrace, idxOf?, capAppend_eq, Item.apply, Extracted.kvMod_default,
-          Extracted.burlEncodePsnde]
+    simp [extNumber, hw.2, rbrace, idxOf?, capAppend_eq, Item.apply, hdef]
   | scheme =>
     simp only [Item.render, e1, List.cons_append, List.nil_append]
     simp only [extGo, startsWith, sEsc, sNo, sTo, sUrlDot, sScheme, ofString, isDigit, rbrace]
@@ -706,7 +712,7 @@ theorem extGo_item (env : Env) (c : UInt8) (out t : Bytes) (pos fl : Nat) (item 
 
 /-- one token of a well-formed template is expanded by pcre_keyvalue_buffer_subst() exactly as the
     reference semantics says -/
-theorem substGo_tok (env : Env) (tk : Tok) (hw : tk.WF) (t out : Bytes) :
+theorem substGo_tok (hmap : ModifierMapAsDocumented) (env : Env) (tk : Tok) (hw : tk.WF) (t out : Bytes) :
     substGo env (tk.render ++ t) 0 out = substGo env t 0 (tk.interp env out) := by
   cases tk with
   | lit s => exact substGo_literal env s t out hw
@@ -735,8 +741,8 @@ theorem substGo_tok (env : Env) (tk : Tok) (hw : tk.WF) (t out : Bytes) :
     simp only [Tok.render, List.cons_append, List.append_assoc, Tok.interp]
     rw [substGo_brace env c hc]
     simp only [substExt, List.nil_append]
-    rw [extGo_modifiers, extGo_item env c out t _ _ item hi]
-    simp only
+    rw [extGo_modifiers, extGo_item hmap.2 env c out t _ _ item hi]
+    simp only [hmap.1]
     have hl : (mods.flatMap Modifier.name ++ item.render ++ [rbrace]).length =
         0 + (mods.flatMap Modifier.name).length + item.render.length + 1 := by
       simp only [List.length_append, List.length_cons, List.length_nil]; omega
@@ -745,7 +751,8 @@ theorem substGo_tok (env : Env) (tk : Tok) (hw : tk.WF) (t out : Bytes) :
     rw [hs, ← hl, List.drop_left]
 
 /-- pcre_keyvalue_buffer_subst() on a well-formed template = the reference interpreter -/
-theorem substGo_interpret (env : Env) : ∀ (toks : List Tok), (∀ tk ∈ toks, tk.WF) → ∀ (t out : Bytes),
+theorem substGo_interpret (hmap : ModifierMapAsDocumented) (env : Env) :
+    ∀ (toks : List Tok), (∀ tk ∈ toks, tk.WF) → ∀ (t out : Bytes),
     substGo env (toks.flatMap Tok.render ++ t) 0 out = substGo env t 0 (interpret env toks out) := by
   intro toks
   induction toks with
@@ -753,7 +760,7 @@ theorem substGo_interpret (env : Env) : ∀ (toks : List Tok), (∀ tk ∈ toks,
   | cons tk rest ih =>
     intro hw t out
     simp only [List.flatMap_cons, List.append_assoc, interpret, List.foldl_cons]
-    rw [substGo_tok env tk (hw tk (by simp))]
+    rw [substGo_tok hmap env tk (hw tk (by simp))]
     exact ih (fun x hx => hw x (by simp [hx])) t _
 
 end LtVerif
